@@ -10,7 +10,8 @@
 (***************************************************************************)
 EXTENDS LStatic, Json, IOUtils, TLCExt
 
-Cases == ndJsonDeserialize(IOEnv.TRACE_FILE)
+(* The file is read once (TLC does not cache IOEnv-dependent definitions). *)
+Cases == TLCGet(2)
 VARIABLE pos
 
 Expanded(prog) == IF BadMakes(prog) = {} THEN [ExpandMakes(prog) EXCEPT !.makes = <<>>]
@@ -56,7 +57,7 @@ Verdicts(c) ==
                   ELSE (c.outcomes[k].p \in DOMAIN PredMap(Expanded(c.prog))
                         /\ MustReject(Expanded(c.prog), c.outcomes[k].p))]]
 
-Init == pos = 1 /\ TLCSet(1, 0)
+Init == pos = 1 /\ TLCSet(1, 0) /\ TLCSet(2, ndJsonDeserialize(IOEnv.TRACE_FILE))
 Next ==
   /\ pos <= Len(Cases)
   /\ LET vs == Verdicts(Cases[pos])
